@@ -101,34 +101,43 @@ theorem deser_ser_iff (v : Val) :
 theorem deser_ser_of_not_reqs (v : Val) (h : ∀ r, v ≠ .reqs r) : deser (ser v) = v :=
   (deser_ser_iff v).mpr (fun r hr => (h r hr).elim)
 
-/-- Round trip of one field, for any class table with distinct attribute names. -/
-theorem structureField_unstructureField (T : Attrs) (hT : (T.map Prod.fst).Nodup) (f : Field)
-    (hwf : FieldWF T f) (hser : SerOK f) :
-    structureField T f.name (unstructureField T f) = f := by
+/-- what the round trip does to one attribute: untouched if it equals the class default (it is dropped and the
+    default re-applied), otherwise sent through the dictionary form -/
+def roundAttr (T : Attrs) (kv : String × Val) : String × Val :=
+  (kv.1, if T.lookup kv.1 = some kv.2 then kv.2 else deser (ser kv.2))
+
+def roundField (T : Attrs) (f : Field) : Field := { f with attrs := f.attrs.map (roundAttr T) }
+
+/-- Round trip of one field *without* assuming that its values survive: the result is the field with every
+    non-default attribute sent through the dictionary form. -/
+theorem structureField_unstructureField_gen (T : Attrs) (hT : (T.map Prod.fst).Nodup) (f : Field)
+    (hwf : FieldWF T f) :
+    structureField T f.name (unstructureField T f) = roundField T f := by
   unfold FieldWF at hwf
   have hlen : T.length = f.attrs.length := by
     have := congrArg List.length hwf
     simpa using this.symm
   have hnd : (f.attrs.map Prod.fst).Nodup := by rw [hwf]; exact hT
-  unfold structureField
+  unfold structureField roundField
   cases f with
   | mk name attrs =>
     simp only [Field.mk.injEq, true_and]
-    simp only at hlen hnd hwf hser
+    simp only at hlen hnd hwf
     apply List.ext_getElem
     · simp [hlen]
     · intro i h1 h2
       simp only [List.getElem_map]
       have hi : i < T.length := by simpa using h1
-      have hk : (attrs[i]'h2).1 = (T[i]'hi).1 := by
+      have h2' : i < attrs.length := by simpa using h2
+      have hk : (attrs[i]'h2').1 = (T[i]'hi).1 := by
         have := congrArg (fun l => l[i]?) hwf
         simp only [List.getElem?_map] at this
-        rw [List.getElem?_eq_getElem h2, List.getElem?_eq_getElem hi] at this
+        rw [List.getElem?_eq_getElem h2', List.getElem?_eq_getElem hi] at this
         simpa using this
       have hmemT : (T[i]'hi) ∈ T := List.getElem_mem hi
-      have hmemA : (attrs[i]'h2) ∈ attrs := List.getElem_mem h2
+      have hmemA : (attrs[i]'h2') ∈ attrs := List.getElem_mem h2'
       rcases hT' : T[i]'hi with ⟨k, dflt⟩
-      rcases hA' : attrs[i]'h2 with ⟨k', v⟩
+      rcases hA' : attrs[i]'h2' with ⟨k', v⟩
       rw [hT', hA'] at hk
       simp only at hk
       subst hk
@@ -136,15 +145,32 @@ theorem structureField_unstructureField (T : Attrs) (hT : (T.map Prod.fst).Nodup
       rw [hA'] at hmemA
       have hlT : T.lookup k' = some dflt := lookup_of_mem T hT hmemT
       have hlU := lookup_filter_map attrs hnd (fun kv => T.lookup kv.1 != some kv.2) ser hmemA
-      unfold unstructureField
+      unfold unstructureField roundAttr
       simp only
       rw [hlU, hlT]
       by_cases hd : dflt = v
       · subst hd; simp
       · have : (some dflt != some v) = true := by simpa using hd
-        simp only [this, if_true]
-        have := hser (k', v) hmemA
-        simp only at this
-        rw [this]
+        have hne : ¬ (some dflt = some v) := by simpa using hd
+        simp only [this, if_true, hne, if_false]
+
+theorem roundField_of_serOK (T : Attrs) (f : Field) (hser : SerOK f) : roundField T f = f := by
+  unfold roundField
+  cases f with
+  | mk name attrs =>
+    simp only [Field.mk.injEq, true_and]
+    rw [map_eq_self_iff]
+    intro kv hkv
+    unfold roundAttr
+    have := hser kv hkv
+    by_cases h : T.lookup kv.1 = some kv.2
+    · simp [h]
+    · simp [h, this]
+
+/-- Round trip of one field, for any class table with distinct attribute names. -/
+theorem structureField_unstructureField (T : Attrs) (hT : (T.map Prod.fst).Nodup) (f : Field)
+    (hwf : FieldWF T f) (hser : SerOK f) :
+    structureField T f.name (unstructureField T f) = f := by
+  rw [structureField_unstructureField_gen T hT f hwf, roundField_of_serOK T f hser]
 
 end PydraModel.Roundtrip
